@@ -212,11 +212,11 @@ def r15e(ctx):
 
 
 def run(ctx):
-    r15a(ctx)
-    r15b(ctx)
-    r15c(ctx)
-    r15d(ctx)
-    r15e(ctx)
+    ctx.guard(r15a)
+    ctx.guard(r15b)
+    ctx.guard(r15c)
+    ctx.guard(r15d)
+    ctx.guard(r15e)
 
 
 SELFTEST = {
